@@ -524,6 +524,11 @@ fn check_cli(family: &'static str, index: u64, c: &Circ, rf: &Ref, cli: &str, di
             cmd.arg(method);
         }
         if use_out {
+            if index % 2 == 1 {
+                // an older, much longer file is already there
+                let _ = std::fs::write(&outp, "// stale output of an earlier run\nh q[0];\n".repeat(400));
+                cx.count("cli:-o-over-an-existing-file", 1);
+            }
             cmd.arg("-o").arg(&outp);
         }
         cx.count(&format!("cli:opt{}{}", if method.is_empty() { ":default" } else { method }, if use_out { ":-o" } else { "" }), 1);
